@@ -3,6 +3,7 @@ CONSTANTS
   NCalls = 3
   Keys <- Keys3
   Full = TRUE
+  Big = TRUE
   MaxSteps = 1000
   Subs <- SubsAll
   MaxNote = 1000
